@@ -239,6 +239,19 @@ def check(run, cases=None):
             run.dev(max(d1, d2, d3) / S)
             if max(d1, d2, d3) > TOL * 50 * S:
                 run.violation(dict(key, op='to_matrix'), 'to_matrix: dev to exact matrix %.3g, matrix product %.3g, matrix of a+b %.3g | case %r' % (d1, d2, d3, c), dict(case=c))
+            if hasattr(type(a), 'from_matrix'):
+                # the correspondence goes both ways: the pose of the exact matrices of a, of a (+) b and of a^-1 (whatever the sign of the angle)
+                einv = np.linalg.inv(ea)
+                for nm, M, exp in (('from_matrix(M(a))', ea, None), ('from_matrix(M(a) M(b))', eab, obs['comp']), ('from_matrix(M(a)^-1)', einv, obs['inv'])):
+                    try:
+                        res = type(a).from_matrix(M)
+                        dt, dr = _dev_to_pose(res, a0, k) if exp is None else PC.pose_dev(res, exp)[:2]
+                    except Exception as ex:  # noqa
+                        run.violation(dict(key, op='from_matrix'), 'exception %r in %s | case %r' % (ex, nm, c), dict(case=c))
+                        continue
+                    run.dev(max(dt / S, dr))
+                    if not (dt <= TOL * 50 * S and dr <= TOL * 50) or type(res) is not type(a):
+                        run.violation(dict(key, op='from_matrix'), '%s: deviation translation %.3g rotation %.3g, result %r | case %r' % (nm, dt, dr, np.asarray(res).tolist(), c), dict(case=c))
         # operands untouched by all of the above
         if not (np.array_equal(np.array(a), a0) and np.array_equal(np.array(b), b0)):
             run.violation(dict(key, op='operand-mutation'), 'an operator changed one of its operands | case %r' % (c,), dict(case=c))
